@@ -393,6 +393,33 @@ pub fn run(ctx: &mut Ctx) {
             }
         }
     }
+    // texts the decoders accept that no well-formed value produces: the encoders' output for constructible but
+    // ill-formed values (C10's generator). Whatever the first decode keeps must survive a second pass.
+    let n = ctx.n(3_000, 60_000);
+    for i in 0..n {
+        if !ctx.begin("illformed-images", i) {
+            continue;
+        }
+        let mut rng = ctx.case_rng("illformed-images", i);
+        let v = crate::mon_c10::any_value_top(&mut rng);
+        if let Ok(Ok(t)) = catch(|| to_zinc_string(&v)) {
+            zinc_fixed_point(ctx, &t, "illformed");
+        }
+        if let Ok(Ok(t)) = catch(|| serde_json::to_string(&v)) {
+            json_fixed_point(ctx, &t, "illformed");
+        }
+    }
+    // harness-written Hayson for relaxed (not well-formed) values: texts a lenient decoder may accept
+    let n = ctx.n(3_000, 60_000);
+    for i in 0..n {
+        if !ctx.begin("liberal-hayson", i) {
+            continue;
+        }
+        let mut rng = ctx.case_rng("liberal-hayson", i);
+        let m = crate::gen::relax(&gen_value(&mut rng, 3), &mut rng);
+        let (doc, _) = crate::refjson::write_hayson(&mut rng, &m, true);
+        json_fixed_point(ctx, &doc, "liberal");
+    }
     let n = ctx.n(300, 6_000);
     for i in 0..n {
         if !ctx.begin("laziness", i) {
